@@ -241,7 +241,7 @@ int main(int argc, char **argv) {
 	exhaustive_alphabet("printf-exh", "%$*.-09lhdsx", t ? 6 : 5, t ? 1 : 1, [](const std::string &s, Rng &r) { printf_input(s, r, false); });
 	if(!t) exhaustive_alphabet("printf-exh6", "%$*.-09lhdsx", 6, 13, [](const std::string &s, Rng &r) { printf_input(s, r, false); }, 6);
 	else exhaustive_alphabet("printf-exh7", "%$*.-09lhdsx", 7, 29, [](const std::string &s, Rng &r) { printf_input(s, r, false); }, 7);
-	exhaustive_alphabet("printf-exh-b", "%#+ 'c1pXuz", t ? 5 : 4, 1, [](const std::string &s, Rng &r) { printf_input(s, r, false); });
+	exhaustive_alphabet("printf-exh-b", "%#+ 'c1pXuzL", t ? 5 : 4, 1, [](const std::string &s, Rng &r) { printf_input(s, r, false); });
 	exhaustive_alphabet("fmt-exh", "{}:09xq", t ? 7 : 6, 1, fmt_input);
 	exhaustive_alphabet("cmdline-exh", "\" =a1", t ? 8 : 7, 1, cmdline_input);
 	exhaustive_alphabet("to_number-exh", "091-a", t ? 8 : 7, 1, to_number_input);
